@@ -140,7 +140,13 @@ impl<'a> Remote<'a> {
                     .with(|waker| cx.waker().will_wake(unsafe { (&*waker).assume_init_ref() }))
             {
                 // Waker is already up-to-date, leave it in place.
-                self.header().state.finish_setting_waker::<true>();
+                let end = self.header().state.finish_setting_waker::<true>();
+                if end.has_result() || end.is_cancelled() {
+                    // The task finished (or was dropped) while we were in the critical
+                    // section: the executor skipped the wake, so look again right away.
+                    state = end;
+                    continue;
+                }
                 break Poll::Pending;
             }
 
@@ -161,7 +167,15 @@ impl<'a> Remote<'a> {
                 waker.write(cx.waker().clone());
             });
 
-            self.header().state.finish_setting_waker::<true>();
+            let end = self.header().state.finish_setting_waker::<true>();
+            if end.has_result() || end.is_cancelled() {
+                // The task finished (or was dropped) while we were in the critical
+                // section: the executor skipped the wake (it saw us setting the waker)
+                // and nobody would ever invoke the waker we just stored. Look again
+                // right away instead of returning `Pending`.
+                state = end;
+                continue;
+            }
 
             break Poll::Pending;
         }
